@@ -12,13 +12,13 @@ TITLES = [
     ("C01", r"rows-differ_(join|selfjoin|derived)", "optimised join plans differ from the unoptimised plan: hash join matches NULL = NULL keys; join-condition pushdown applied to outer joins; filter pushed below LIMIT", "src/executor/hash_join.rs; src/planner/rules/plan.rs (pushdown-join-condition-*, pushdown-filter-limit/topn)"),
     ("C01", r"rows-differ_agg", "aggregates over an empty input differ between optimised and unoptimised plans", "src/planner/rules/expr.rs / src/executor/simple_agg.rs"),
     ("C01", r"rows-differ_proj_", "range-conflict rules (and-gt-lt-conflict etc.) and constant folding change results on NULL rows", "src/planner/rules/expr.rs"),
-    ("C02", r"no-answer_ok_with_task_panic_join_(right|full)", "RIGHT/FULL OUTER nested-loop join is `todo!()`: the operator task panics and the statement returns Ok with no rows", "src/executor/nested_loop_join.rs:26; src/executor/mod.rs (spawn)"),
+    ("C02", r"no-answer_err_join(-ordered)?_(right|full)", "RIGHT/FULL OUTER joins that are not planned as hash/merge joins hit `todo!()` in the nested-loop join: the statement fails (no answer for a core-subset query)", "src/executor/nested_loop_join.rs:26"),
     ("C02", r"no-answer_panic_subquery", "some IN/EXISTS/scalar subqueries are planned into `apply` nodes or unresolved column references the executor cannot build", "src/planner/rules/plan.rs (subquery_rules); src/executor/mod.rs"),
     ("C02", r"rows-differ_(agg|groupby)", "aggregate semantics differ from SQL: SUM over empty/NULL-only input, COUNT(DISTINCT) counting NULL, hash-agg SUM reset by NULL", "src/executor/evaluator.rs; src/array/ops.rs (sum/count distinct states)"),
     ("C02", r"rows-differ_(join|selfjoin|derived|subquery)", "join/subquery answers differ from SQL: NULL = NULL matches in hash/semi joins, NOT IN over NULLs, outer-join ON-condition pushdown", "src/executor/hash_join.rs; src/planner/rules/plan.rs"),
     ("C02", r"rows-differ_proj_", "NULL-unsafe scalar rewrites (a*0, a-a, a=a, conflicting ranges) evaluate to non-NULL on NULL rows", "src/planner/rules/expr.rs"),
     ("C03", r"reopen-fails", "CREATE VIEW consumes a table id that is not logged in the manifest: a table created after a view is replayed under a different id and the database no longer opens", "src/storage/secondary/manifest.rs (replay assigns ids by catalog order); src/executor/create_view.rs"),
-    ("C05", r"outcome_rows-vs-ok_with_task_panic", "key-range scan panics on disk when the primary key is not the first table column (start_rowid decodes column 0's first keys as i32); statement returns Ok with no rows", "src/storage/secondary/rowset/disk_rowset.rs:141 start_rowid"),
+    ("C05", r"outcome_rows-vs-err", "key-range scan fails on disk when the primary key is not the first table column (start_rowid decodes column 0's first keys as i32 and panics); the memory engine answers", "src/storage/secondary/rowset/disk_rowset.rs:141 start_rowid"),
     ("C05", r"rows-differ|column-types", "NULL inserted into a NOT NULL column is stored as 0/'' on disk but as NULL in memory (no NOT NULL check on INSERT)", "src/executor/insert.rs; src/storage/secondary/column (non-nullable encodings)"),
 ]
 
